@@ -524,6 +524,32 @@ def _while_progress(R, f, lp, cfg, cons, measure_var, measure_len, extra=None):
     head = cfg.loop_of[lp]
     first = [n for l, n in head.succ if l is True]
 
+    def lin_of(e, env, c, sym):
+        """the position e relative to the cursor at the loop head, in the (constant, symbolic terms) form of the measure: the cursor or a second
+        cursor, plus / minus constants and canonical length terms; None when e is not of that form"""
+        terms = []
+
+        def walk(x, sg):
+            if isinstance(x, ast.BinOp) and isinstance(x.op, (ast.Add, ast.Sub)):
+                return walk(x.left, sg) and walk(x.right, sg if isinstance(x.op, ast.Add) else -sg)
+            terms.append((sg, x))
+            return True
+        walk(e, 1)
+        base = None
+        nc, nsym = 0, ()
+        for sg, x in terms:
+            if isinstance(x, ast.Name) and (x.id == measure_var or x.id in env.get('#aux', {})) and sg == 1 and base is None:
+                base = (c, sym) if x.id == measure_var else env['#aux'][x.id]
+            elif isinstance(const_val(x, None), int) and not isinstance(const_val(x, None), bool):
+                nc -= sg * const_val(x)
+            elif isinstance(x, ast.Call) and call_name(x) == 'len':
+                nsym += ((-sg, canon(x, al)),)
+            else:
+                return None
+        if base is None:
+            return None
+        return base[0] + nc, base[1] + nsym
+
     def transfer(node, env):
         default_transfer(node, env)
         st = node.stmt
@@ -540,6 +566,28 @@ def _while_progress(R, f, lp, cfg, cons, measure_var, measure_len, extra=None):
                     env['#skip'] = (k, st.lineno)
             else:
                 sym += ((sign, canon(st.value, al)),)
+        elif isinstance(st, ast.Assign) and len(st.targets) == 1 and isinstance(st.targets[0], ast.Name) and \
+                lin_of(st.value, env, c, sym) is not None and (norm(st.targets[0]) == measure_var or measure_var in names_in(st.value) or
+                                                               any(x_ in env.get('#aux', {}) for x_ in names_in(st.value))):
+            # a position written as another position plus an offset: a second cursor (`end = i + k ... i = end + 1`)
+            nc, nsym = lin_of(st.value, env, c, sym)
+            if norm(st.targets[0]) == measure_var:
+                c, sym = nc, nsym
+            else:
+                aux = dict(env.get('#aux', {}))
+                aux[st.targets[0].id] = (nc, nsym)
+                env['#aux'] = aux
+        elif isinstance(st, ast.AugAssign) and isinstance(st.target, ast.Name) and st.target.id in env.get('#aux', {}) and isinstance(st.op, (ast.Add, ast.Sub)):
+            aux = dict(env['#aux'])
+            ac, asym = aux[st.target.id]
+            sign = -1 if isinstance(st.op, ast.Add) else 1
+            k = const_val(st.value, None)
+            if isinstance(k, int):
+                ac += sign * k
+            else:
+                asym += ((sign, canon(st.value, al)),)
+            aux[st.target.id] = (ac, asym)
+            env['#aux'] = aux
         elif isinstance(st, ast.Assign) and norm(st.targets[0]) == measure_var:
             sym += ((0, 'assigned ' + norm(st.value)),)
         elif isinstance(st, ast.Delete) and any(isinstance(t, ast.Subscript) and norm(t.value) == measure_len for t in st.targets):
@@ -548,6 +596,7 @@ def _while_progress(R, f, lp, cfg, cons, measure_var, measure_len, extra=None):
                 isinstance(st.targets[0].slice, ast.Slice) and norm(st.targets[0].slice.lower) == norm(st.targets[0].slice.upper):
             sym += ((1, 'len(%s)' % norm(st.value)),)
             env['#inserted'] = norm(st.value)
+            env['#inserted_c'] = canon(ast.Call(func=ast.Name(id='len', ctx=ast.Load()), args=[st.value], keywords=[]), al)
         elif isinstance(st, ast.Assign) and isinstance(st.value, ast.List) and not st.value.elts and isinstance(st.targets[0], ast.Name):
             env['#reset'] = env.get('#reset', ()) + (st.targets[0].id,)
         elif isinstance(st, ast.Expr) and isinstance(st.value, ast.Call) and isinstance(st.value.func, ast.Attribute) and \
@@ -579,6 +628,13 @@ def _while_progress(R, f, lp, cfg, cons, measure_var, measure_len, extra=None):
         strictly = c < 0 or any(v < 0 and (extra or {}).get(t) == 'pos' for t, v in resid.items())
         if env.get('#skip'):
             other = other + ['steps over %d elements at once (L%d): elements are skipped unseen' % env['#skip']]
+        if env.get('#inserted'):
+            # after a run was put back at the cursor, the cursor moves past exactly what was inserted
+            adv = [t for sg, t in sym if sg == -1 and t.startswith('len(')]
+            want_ = [env.get('#inserted_c'), 'len(%s)' % env['#inserted']]
+            if adv and not all(t in want_ for t in adv):
+                other = other + ['after %s is inserted at the cursor the cursor advances by %s, not by the number of elements inserted: the elements that follow are '
+                                 'skipped unseen (or seen twice)' % (env['#inserted'], ', '.join(adv))]
         if other or not nonpos or not strictly:
             bad.append((p, c, resid, other))
     return n, bad
